@@ -93,11 +93,117 @@ Theorem C06_new_map_json_empty_refuted : exists decv b, decv b = Err EEOF /\ new
 Proof. exact new_map_json_empty_refuted. Qed.
 Print Assumptions C06_new_map_json_empty_refuted.
 
-(* NOT PROVED: json_roundtrip at the structural level - decode_segs usenum (segments safe v) = Some (v with every map
-   sorted by key) for all JSON-shaped v.  decode_segs is this development's model of encoding/json's decoder on the
-   segment layer (the environment, not mxj code); it is compared with NewMapJson(Map.Json(m)) and Map.Copy() on every
-   run (JRound cases).  What is proved is the part that depends on mxj's choice of encoding: every literal of the output
-   decodes to its string (C06_literals_roundtrip), for both encodings. *)
+(* ================================================================== the structural round trip *)
+From Mxj Require Import Spec.JsonRT Proofs.C06Struct Proofs.C06StructCopy Proofs.C06StructIdem Proofs.C06StructIndent.
+From Mxj Require Model.Files.
+
+(* json_roundtrip, at the structural level (proofs: Proofs/C06Struct.v, Proofs/C06StructCopy.v; definitions: Spec/JsonRT.v).
+   decode_segs is this development's model of encoding/json's decoder on the segment layer (the environment, not mxj
+   code; compared with NewMapJson(Map.Json(m)) and Map.Copy() on every run, JRound cases).  For BOTH encodings, BOTH
+   number modes and EVERY value of JSON types - any nesting, any valid UTF-8 keys and strings - whose maps have distinct
+   keys (wfb: every Go map) and whose number texts begin with a digit or '-' (nums_start: what encoding/json prints for a
+   float64 and accepts as a json.Number), decoding what Map.Json wrote gives exactly jcanon usenum v: the same tree with
+   every map's entries in sorted-key order (the order the decoder inserts them) and every number in the decoder's Go type
+   (float64 without UseNumber, json.Number with it). *)
+Theorem C06_json_roundtrip : forall safe usenum v,
+  json_shaped utf8_valid v = true -> nums_start v = true -> wfb v = true ->
+  decode_segs usenum (segments safe v) = Some (jcanon usenum v).
+Proof. exact json_roundtrip. Qed.
+Print Assumptions C06_json_roundtrip.
+
+(* jcanon changes nothing but the order of map entries when the numbers already have the decoder's type *)
+Theorem C06_jcanon_veq : forall usenum v, nums_mode usenum v = true -> veq (jcanon usenum v) v.
+Proof. exact jcanon_veq. Qed.
+Print Assumptions C06_jcanon_veq.
+
+(* ... so the decoded value is the encoded one up to the order of map entries at every depth (reflect.DeepEqual on Go
+   maps): as a relation (veq), by the boolean test the harness uses (veqb), and it is again a well-formed value *)
+Theorem C06_json_roundtrip_veq : forall safe usenum v,
+  json_shaped utf8_valid v = true -> nums_start v = true -> nums_mode usenum v = true -> wfb v = true ->
+  exists v', decode_segs usenum (segments safe v) = Some v' /\ veq v' v /\ veqb v' v = true /\ wfb v' = true.
+Proof. exact json_roundtrip_veq. Qed.
+Print Assumptions C06_json_roundtrip_veq.
+
+(* the two side conditions are needed: a number text with a leading '+' (valid for json_shaped's num_text, never written
+   by encoding/json) does not decode, and a "map" with a repeated key (no Go map) loses the earlier entry *)
+Theorem C06_json_roundtrip_side_conditions_needed :
+  (exists v, json_shaped utf8_valid v = true /\ wfb v = true /\ nums_start v = false /\
+             decode_segs false (segments false v) = None) /\
+  (exists v, json_shaped utf8_valid v = true /\ nums_start v = true /\ wfb v = false /\
+             decode_segs false (segments false v) = Some (VMap [(s "a", VBool true)]) /\
+             veqb (VMap [(s "a", VBool true)]) v = false).
+Proof. exact roundtrip_side_conditions_needed. Qed.
+Print Assumptions C06_json_roundtrip_side_conditions_needed.
+
+(* JsonIndent: what json.Indent adds is whitespace-only segments (newline + prefix + depth * indent, and the blank after
+   a colon), which the decoder skips - for every prefix and indent made of JSON whitespace, JsonIndent's output decodes
+   to the same canonical value as Json's *)
+Theorem C06_json_indent_roundtrip : forall prefix indent safe usenum v,
+  ws_str prefix = true -> ws_str indent = true ->
+  json_shaped utf8_valid v = true -> nums_start v = true -> wfb v = true ->
+  decode_segs usenum (segments_ind safe prefix indent 0 v) = Some (jcanon usenum v).
+Proof. exact json_indent_roundtrip. Qed.
+Print Assumptions C06_json_indent_roundtrip.
+
+(* "JsonIndent always produces valid JSON" is FALSE for a prefix or indent that is not whitespace: json.Indent copies
+   both into the text as they are (documented for encoding/json's Indent; mxj passes the arguments through unchecked) *)
+Theorem C06_json_indent_nonws_prefix_refuted : exists prefix indent v,
+  json_shaped utf8_valid v = true /\ nums_start v = true /\ wfb v = true /\
+  decode_segs false (segments_ind false prefix indent 0 v) = None.
+Proof. exact json_indent_nonws_prefix_refuted. Qed.
+Print Assumptions C06_json_indent_nonws_prefix_refuted.
+
+(* Json() of the decoded value is byte for byte Json() of the original - for EVERY value and both encodings: the
+   round trip loses nothing the encoding shows *)
+Theorem C06_reencode_same_text : forall safe usenum v, map_json safe (jcanon usenum v) = map_json safe v.
+Proof. exact reencode_same_text. Qed.
+Print Assumptions C06_reencode_same_text.
+
+(* a second round trip (in either encoding) returns exactly what the first one returned; jcanon is idempotent *)
+Theorem C06_roundtrip_stable : forall safe usenum v,
+  json_shaped utf8_valid v = true -> nums_start v = true -> wfb v = true ->
+  decode_segs usenum (segments safe (jcanon usenum v)) = Some (jcanon usenum v).
+Proof. exact roundtrip_stable. Qed.
+Print Assumptions C06_roundtrip_stable.
+Theorem C06_jcanon_idem : forall usenum v, jcanon usenum (jcanon usenum v) = jcanon usenum v.
+Proof. exact jcanon_idem. Qed.
+Print Assumptions C06_jcanon_idem.
+
+(* NewMapJson(Map.Json(safe)) with mxj's own NewMapJson logic (Model/Json.v new_map_json) around the decoder oracle decv:
+   when decv reads the text Json wrote as the segment-layer model does, the result is Ok of the canonical Map *)
+Theorem C06_newmapjson_json_roundtrip : forall safe usenum (decv : str -> res value) m,
+  decv (map_json safe (VMap m)) = opt_res (decode_segs usenum (segments safe (VMap m))) ->
+  json_shaped utf8_valid (VMap m) = true -> nums_start (VMap m) = true -> wfb (VMap m) = true ->
+  new_map_json decv (map_json safe (VMap m)) = Ok (jcanon usenum (VMap m)).
+Proof. exact newmapjson_json_roundtrip. Qed.
+Print Assumptions C06_newmapjson_json_roundtrip.
+
+(* copy_roundtrip: Map.Copy (Model/Files.v map_copy: Json() = the Encoder's output minus its newline, then NewMapJson)
+   with encoding/json's Encoder writing the model's text and its Decoder reading that text as the segment-layer model
+   does: Copy returns the canonical Map ... *)
+Theorem C06_copy_canon : forall usenum (encode : bool -> value -> option str) (json_dec : str -> res value) m,
+  encode false (VMap m) = Some (map_json false (VMap m) ++ [Files.nl_byte]) ->
+  json_dec (map_json false (VMap m)) = opt_res (decode_segs usenum (segments false (VMap m))) ->
+  json_shaped utf8_valid (VMap m) = true -> nums_start (VMap m) = true -> wfb (VMap m) = true ->
+  Files.map_copy encode json_dec (VMap m) = Ok (jcanon usenum (VMap m)).
+Proof. exact copy_roundtrip. Qed.
+Print Assumptions C06_copy_canon.
+
+(* ... which is the receiver up to the order of map entries *)
+Theorem C06_copy_roundtrip : forall usenum (encode : bool -> value -> option str) (json_dec : str -> res value) m,
+  encode false (VMap m) = Some (map_json false (VMap m) ++ [Files.nl_byte]) ->
+  json_dec (map_json false (VMap m)) = opt_res (decode_segs usenum (segments false (VMap m))) ->
+  json_shaped utf8_valid (VMap m) = true -> nums_start (VMap m) = true -> nums_mode usenum (VMap m) = true ->
+  wfb (VMap m) = true ->
+  exists w, Files.map_copy encode json_dec (VMap m) = Ok w /\ veq w (VMap m) /\ veqb w (VMap m) = true.
+Proof. exact copy_roundtrip_veq. Qed.
+Print Assumptions C06_copy_roundtrip.
+
+(* NOT PROVED (and not modelled): the step from the bytes of the text to its segments.  decode_segs works on the segment
+   list; encoding/json's scanner (which splits the text into literals, punctuation and number tokens) is the environment
+   and is not transcribed, so the NewMapJson / Copy theorems above take "the Decoder reads the text Json wrote as
+   decode_segs reads its segments" as a hypothesis about the oracle (checked on every JRound / Copy run of the harness).
+   Numbers are carried as text: that float64 -> text -> float64 is the identity is encoding/json's property, not stated. *)
 
 (* ================================================================== non-vacuity *)
 
@@ -120,3 +226,41 @@ Definition ex_w : value := VMap [(s "a&b", VStr (s "x<y>" ++ [bsl] ++ s "u003"))
 Example C06_compat_nonvacuous :
   json_shaped hazard_free ex_w = true /\ rewrite (marshal true ex_w) = map_json false ex_w.
 Proof. split; vm_compute; reflexivity. Qed.
+
+(* the structural round trip: a nested Map with lists, nulls, booleans, numbers (negative, exponent), empty containers,
+   keys out of order, strings with <, >, &, a quote, a backslash, a control character, U+2028, a non-ASCII rune and the
+   literal text backslash-u0026.  Every hypothesis holds, for both number modes; the result differs from the input
+   (entries reordered at two depths) and is veqb-equal to it *)
+Definition ex_rt (num : str -> value) : value :=
+  VMap [(s "z<" ++ bsl :: s "u003c", VStr (s "a<b>&" ++ [bsl; dq] ++ hx "0a" ++ hx "e280a8" ++ hx "c3a9" ++ bsl :: s "u0026"));
+        (s "n", VList [num (s "1.5"); VNil; VBool true; num (s "-12"); VMap []; VList [];
+                       VMap [(s "b", VNil); (s "a", VList [VList [VBool false; VStr []]])]]);
+        (s "a&", VMap [(s "k", num (s "1e+21")); (s "", VNil)])].
+Example C06_roundtrip_nonvacuous :
+  json_shaped utf8_valid (ex_rt VFlt) = true /\ nums_start (ex_rt VFlt) = true /\ nums_mode false (ex_rt VFlt) = true /\
+  wfb (ex_rt VFlt) = true /\
+  json_shaped utf8_valid (ex_rt VJNum) = true /\ nums_start (ex_rt VJNum) = true /\ nums_mode true (ex_rt VJNum) = true /\
+  wfb (ex_rt VJNum) = true /\
+  decode_segs false (segments false (ex_rt VFlt)) = Some (jcanon false (ex_rt VFlt)) /\
+  decode_segs true (segments true (ex_rt VJNum)) = Some (jcanon true (ex_rt VJNum)) /\
+  decode_segs false (segments true (ex_rt VJNum)) = Some (jcanon false (ex_rt VFlt)) /\
+  value_eqb (jcanon false (ex_rt VFlt)) (ex_rt VFlt) = false /\ veqb (jcanon false (ex_rt VFlt)) (ex_rt VFlt) = true /\
+  ws_str (s "  ") = true /\ ws_str [ascii_of_N 9] = true /\
+  decode_segs false (segments_ind true (s "  ") [ascii_of_N 9] 0 (ex_rt VFlt)) = Some (jcanon false (ex_rt VFlt)) /\
+  no_html (map_json_indent (s "  ") [ascii_of_N 9] true (ex_rt VFlt)) = true /\
+  no_html (map_json_indent (s "  ") [ascii_of_N 9] false (ex_rt VFlt)) = false.
+Proof. repeat split; vm_compute; reflexivity. Qed.
+
+(* Copy: an Encoder and a Decoder that meet the two hypotheses of C06_copy_roundtrip on this Map *)
+Definition ex_encode (eh : bool) (v : value) : option str := Some (map_json eh v ++ [Files.nl_byte]).
+Definition ex_dec (b : str) : res value :=
+  if str_eqb b (map_json false (ex_rt VFlt)) then opt_res (decode_segs false (segments false (ex_rt VFlt))) else Err EOther.
+Example C06_copy_nonvacuous :
+  match ex_rt VFlt with
+  | VMap m =>
+      ex_encode false (VMap m) = Some (map_json false (VMap m) ++ [Files.nl_byte]) /\
+      ex_dec (map_json false (VMap m)) = opt_res (decode_segs false (segments false (VMap m))) /\
+      Files.map_copy ex_encode ex_dec (VMap m) = Ok (jcanon false (VMap m))
+  | _ => False
+  end.
+Proof. repeat split; vm_compute; reflexivity. Qed.
